@@ -14,6 +14,7 @@ pub struct GenCfg {
     pub two: bool,
     pub hm: u8,
     pub limits: bool,
+    pub zst: bool,
 }
 
 fn pick<T: Copy>(rng: &mut SmallRng, v: &[T]) -> Option<T> {
@@ -38,6 +39,9 @@ pub struct Gen {
 
 impl Gen {
     fn key_absent<K: KeyT, V: ValT>(&mut self, w: &World<K, V>, s: usize) -> u32 {
+        if self.cfg.zst {
+            return 0;
+        }
         let (a, b) = w.keys_by_table(s);
         for _ in 0..64 {
             let k = self.rng.gen_range(1..=self.cfg.nkeys);
@@ -50,6 +54,9 @@ impl Gen {
 
     /// class: 0 absent, 1 main, 2 old; falls back when the class is empty
     fn key_of<K: KeyT, V: ValT>(&mut self, w: &World<K, V>, s: usize, class: u32) -> u32 {
+        if self.cfg.zst {
+            return 0;
+        }
         let (a, b) = w.keys_by_table(s);
         match class {
             1 => pick(&mut self.rng, &a).unwrap_or_else(|| self.key_absent(w, s)),
@@ -69,7 +76,18 @@ impl Gen {
         self.key_of(w, s, c)
     }
     fn val(&mut self) -> u32 {
-        self.rng.gen_range(0..10)
+        if self.cfg.zst {
+            0
+        } else {
+            self.rng.gen_range(0..10)
+        }
+    }
+    fn addv(&mut self) -> u32 {
+        if self.cfg.zst {
+            0
+        } else {
+            self.rng.gen_range(1..5)
+        }
     }
 
     fn pred<K: KeyT, V: ValT>(&mut self, w: &World<K, V>, s: usize) -> Value {
@@ -105,7 +123,7 @@ impl Gen {
         for _ in 0..n_pre {
             match self.rng.gen_range(0..4) {
                 0 => c.push(json!({"m":"key"})),
-                1 => c.push(json!({"m":"and_modify","add": self.rng.gen_range(1..5)})),
+                1 => c.push(json!({"m":"and_modify","add": self.addv()})),
                 2 => {
                     if self.rng.gen_bool(0.5) {
                         c.push(json!({"m":"and_replace_entry_with","some": self.val()}))
@@ -131,12 +149,12 @@ impl Gen {
             }
             3 => {
                 c.push(json!({"m":"insert","v": self.val()}));
-                self.occ_tail(&mut c);
+                self.occ_tail(&mut c, false);
             }
             _ => {
                 c.push(json!({"m":"match"}));
                 // both branches are listed; the inapplicable ones are skipped at run time
-                self.occ_tail(&mut c);
+                self.occ_tail(&mut c, true);
                 match self.rng.gen_range(0..3) {
                     0 => c.push(json!({"m":"v_key"})),
                     1 => c.push(json!({"m":"v_into_key"})),
@@ -148,7 +166,7 @@ impl Gen {
         }
         c
     }
-    fn occ_tail(&mut self, c: &mut Vec<Value>) {
+    fn occ_tail(&mut self, c: &mut Vec<Value>, owns_key: bool) {
         for _ in 0..self.rng.gen_range(0..3) {
             match self.rng.gen_range(0..4) {
                 0 => c.push(json!({"m":"o_key"})),
@@ -157,7 +175,11 @@ impl Gen {
                 _ => c.push(json!({"m":"o_insert","v": self.val()})),
             }
         }
-        match self.rng.gen_range(0..8) {
+        let mut t = self.rng.gen_range(0..8);
+        if !owns_key && (t == 3 || t == 4) {
+            t = 7;
+        }
+        match t {
             0 => {
                 c.push(json!({"m":"o_into_mut"}));
                 c.push(json!({"m":"write","w": self.val()}));
@@ -184,7 +206,7 @@ impl Gen {
         let mut c = Vec::new();
         for _ in 0..self.rng.gen_range(0..2) {
             match self.rng.gen_range(0..3) {
-                0 => c.push(json!({"m":"and_modify","add": self.rng.gen_range(1..5)})),
+                0 => c.push(json!({"m":"and_modify","add": self.addv()})),
                 1 => {
                     if self.rng.gen_bool(0.5) {
                         c.push(json!({"m":"and_replace_entry_with","some": self.val()}))
@@ -261,7 +283,7 @@ impl Gen {
             let cap = *[0usize, 0, 1, 3, 4, 7, 8, 14, 15, 28, 29, 56].choose(&mut self.rng).unwrap();
             if self.rng.gen_bool(0.15) {
                 let n = self.rng.gen_range(0..12);
-                let items: Vec<Value> = (0..n).map(|_| json!([self.rng.gen_range(1..=self.cfg.nkeys), self.val()])).collect();
+                let items: Vec<Value> = (0..n).map(|_| json!([if self.cfg.zst { 0 } else { self.rng.gen_range(1..=self.cfg.nkeys) }, self.val()])).collect();
                 let hint = if self.rng.gen_bool(0.7) { n } else { self.rng.gen_range(0..=n) };
                 return json!({"op":"FromIter","s":s,"ty":ty,"hm":self.cfg.hm,"items":items,"hint":hint});
             }
@@ -316,7 +338,7 @@ impl Gen {
             56..=60 => {
                 let mut o = json!({"op":"Retain","s":s,"pred": self.pred(w, s)});
                 if self.rng.gen_bool(0.3) {
-                    o["add"] = json!(self.rng.gen_range(1..5));
+                    o["add"] = json!(self.addv());
                 }
                 o
             }
@@ -327,7 +349,7 @@ impl Gen {
                     o["take"] = json!(self.rng.gen_range(0..=len.min(6)));
                 }
                 if self.rng.gen_bool(0.3) {
-                    o["add"] = json!(self.rng.gen_range(1..5));
+                    o["add"] = json!(self.addv());
                 }
                 o
             }
@@ -336,7 +358,7 @@ impl Gen {
                 let kind = *kinds.choose(&mut self.rng).unwrap();
                 let mut o = json!({"op":"Iter","s":s,"kind":kind,"extra":2});
                 if kind.contains("mut") && self.rng.gen_bool(0.7) {
-                    o["add"] = json!(self.rng.gen_range(1..5));
+                    o["add"] = json!(self.addv());
                 }
                 if self.rng.gen_bool(0.3) {
                     o["take"] = json!(self.rng.gen_range(0..=len));
